@@ -94,6 +94,7 @@ type GhostSet struct {
 }
 
 type Specs struct {
+	Macros    map[string]string // define NAME text  -> $NAME in later clauses
 	Owned     map[string]bool // slice-typed fields whose backing arrays form their own heap region
 	OwnedDecl []*Hook
 	Hooks     []*Hook
@@ -112,7 +113,7 @@ var clauseKeywords = map[string]bool{"decreases": true, "inlinecalls": true, "as
 	"panics_if": true, "callback": true, "nosafety": true, "params": true, "bounded": true}
 
 func newSpecs() *Specs {
-	return &Specs{Owned: map[string]bool{}, Funcs: map[string]*FuncSpec{}, Ghosts: map[string]*GhostDecl{}, SpecFuncs: map[string]*SpecFunc{}}
+	return &Specs{Macros: map[string]string{}, Owned: map[string]bool{}, Funcs: map[string]*FuncSpec{}, Ghosts: map[string]*GhostDecl{}, SpecFuncs: map[string]*SpecFunc{}}
 }
 
 // loadSpecFile reads either a comment-only Go contract file (lines "//@ ...")
@@ -165,6 +166,10 @@ func (sp *Specs) loadSpecFile(path string) error {
 	var stmts []stmt
 	for i, t := range lines {
 		w := firstWord(t)
+		if w == "define" {
+			stmts = append(stmts, stmt{strings.TrimSpace(t), nums[i]})
+			continue
+		}
 		if w == "spec" || w == "owned" || w == "predicate" || w == "prove" || w == "protected" || w == "onwrite" || w == "ghost" || w == "ghostfield" || w == "specfunc" || w == "lemma" || clauseKeywords[w] {
 			stmts = append(stmts, stmt{strings.TrimSpace(t), nums[i]})
 		} else if len(stmts) > 0 {
@@ -175,6 +180,14 @@ func (sp *Specs) loadSpecFile(path string) error {
 	}
 	for _, s := range stmts {
 		w := firstWord(s.text)
+		if w == "define" {
+			parts := strings.SplitN(strings.TrimSpace(strings.TrimPrefix(s.text, w)), " ", 2)
+			if len(parts) == 2 {
+				sp.Macros[parts[0]] = sp.expandMacros(strings.TrimSpace(parts[1]))
+			}
+			continue
+		}
+		s.text = sp.expandMacros(s.text)
 		rest := strings.TrimSpace(strings.TrimPrefix(s.text, w))
 		errf := func(format string, a ...interface{}) error {
 			return fmt.Errorf("%s:%d: %s", path, s.line, fmt.Sprintf(format, a...))
@@ -603,4 +616,15 @@ func (sp *Specs) loadDir(dir, pattern string) error {
 		}
 	}
 	return nil
+}
+
+var macroRe = regexp.MustCompile(`\$[A-Za-z_][A-Za-z0-9_]*`)
+
+func (sp *Specs) expandMacros(t string) string {
+	return macroRe.ReplaceAllStringFunc(t, func(m string) string {
+		if v, ok := sp.Macros[m[1:]]; ok {
+			return v
+		}
+		return m
+	})
 }
